@@ -1,6 +1,8 @@
 import FsDb.Model.VFile
 import FsDb.Model.Codec
 import FsDb.Model.Config
+import FsDb.Model.Sys
+import FsDb.Spec.Iso
 /-!
   Line-protocol driver: one operation per line on stdin, one answer per line on stdout.
   Imports model/spec modules only (core Lean) so that it links as an executable.
@@ -10,6 +12,8 @@ open FsDb
 
 structure St where
   vf : VFile := {}
+  sys : Sys := {}
+  spec : Spec.State := {}
 
 def showVer (v : Option Ver) : String :=
   match v with
@@ -97,12 +101,64 @@ def stepCfg (args : List String) : String :=
     | _, _, _, _, _, _, _ => "bad-op"
   | _ => "bad-op"
 
+def keyOfHex (h : String) : Option Key :=
+  match unhex h with
+  | some bs => String.fromUTF8? (ByteArray.mk bs.toArray)
+  | none => none
+
+def hexOfKey (k : Key) : String := hexOrDash k.toUTF8.toList
+
+def showErr : Err → String
+  | .notFound => "NotFound" | .emptyKey => "EmptyKey" | .txNotFound => "TxNotFound"
+  | .txSerialization => "TxSerialization" | .txAlreadyExists => "TxAlreadyExists"
+  | .noFreeSpace => "NoFreeSpace" | .other => "Other"
+
+def showOut : Out → String
+  | .ok => "ok"
+  | .err e => "e:" ++ showErr e
+  | .val c => "v:" ++ toString c
+  | .keys ks => "keys:" ++ ",".intercalate (ks.map hexOfKey)
+  | .files cs => "files:" ++ ",".intercalate (cs.map toString)
+  | .bad => "bad-op"
+
+def levelOf : String → Option Level
+  | "RU" => some .ru | "RC" => some .rc | "RR" => some .rr | "SER" => some .ser | _ => none
+
+def parseOp (args : List String) : Option Op :=
+  match args with
+  | ["b", t, l] => do let t ← t.toNat?; let l ← levelOf l; pure (.begin t l)
+  | ["tree"] => some .tree
+  | ["s", t, k, c, _] => do let t ← t.toNat?; let k ← keyOfHex k; let c ← c.toNat?; pure (.set t k c)
+  | ["s", t, k, c] => do let t ← t.toNat?; let k ← keyOfHex k; let c ← c.toNat?; pure (.set t k c)
+  | ["d", t, k] => do let t ← t.toNat?; let k ← keyOfHex k; pure (.del t k)
+  | ["g", t, k] => do let t ← t.toNat?; let k ← keyOfHex k; pure (.get t k)
+  | ["k", t] => do let t ← t.toNat?; pure (.keys t)
+  | ["c", t] => do let t ← t.toNat?; pure (.commit t)
+  | ["r", t] => do let t ← t.toNat?; pure (.rollback t)
+  | ["gc"] => some .gc
+  | ["drain"] => some .drain
+  | ["reopen", f] => some (.reopen (f == "1"))
+  | _ => none
+
+/-- sequential system sub-protocol (`sys …`): answers `<concrete model>\t<abstract spec>` -/
+def stepSys (st : St) (args : List String) : St × String :=
+  match args with
+  | ["new", g] => ({ st with sys := { guardWrites := g == "1" }, spec := {} }, "ok\tok")
+  | _ =>
+    match parseOp args with
+    | none => (st, "bad-op\tbad-op")
+    | some op =>
+      let (m, mo) := st.sys.step op
+      let (sp, so) := Spec.step st.spec op
+      ({ st with sys := m, spec := sp }, showOut mo ++ "\t" ++ showOut so)
+
 def step (st : St) (line : String) : St × String :=
   match (line.trimAscii.toString.splitOn " ").filter (· ≠ "") with
   | "vf" :: args => let r := stepVF st.vf args; ({ st with vf := r.1 }, r.2)
   | "enc" :: args => (st, stepCodec ("enc" :: args))
   | "dec" :: args => (st, stepCodec ("dec" :: args))
   | "cfg" :: args => (st, stepCfg args)
+  | "sys" :: args => stepSys st args
   | [] => (st, "")
   | _ => (st, "bad-op")
 
